@@ -1,5 +1,6 @@
 import PEval.Driver.Util
 import PEval.Model.Manager
+import PEval.Model.ManagerTracking
 /-!
 Driver handler for C13 (manager state machine).  One request = one whole operation sequence; the
 model is stepped over it with `PEval.Manager.run`.
@@ -10,6 +11,12 @@ Request `{"op":"run","nlabels":n,"ncols":k,"dataset":[{"time","name","objects"}]
           "ops":[{"o":"add","frame":index into dataset,"e":i,"c":j} | {"o":"scene"} | {"o":"lookup","t","thr"}]}`.
 `dets`/`tracks` are the tables of the abstract single-frame evaluation (`Sem.evalDet`, `Sem.evalTrack`)
 as measured by the harness on FRESH real managers.
+
+Request `{"op":"trun", "labels":[n…], "tcfgs":[{"mode":m,"maximize":b,"thr":[rat…]}…], "dataset":…, "ops":…,
+          "dets":[{"frame","e","c","results","numgt","tb":[[tres…]…]}]}` with
+`tres = {"e":n,"el":n,"g":n|null,"gl":n,"gfp":b,"v":[rat per matching mode],"ok":b,"w":rat}`:
+the extended machine `PEval.ManagerTracking.trun` (tracking scores computed by the CLEAR model from the
+stored buckets).  Answers: per `add` the frame's tracking scores, per `scene` the scene's.
 -/
 open Lean
 
@@ -107,6 +114,79 @@ def jOut (nl ncols : Nat) : Out TrackVal → Json
     | .ok none => Json.mkObj [("o", "lookup"), ("frame", Json.null)]
     | .error e => Json.mkObj [("o", "lookup"), ("err", Json.str e)]
 
+
+/-! ### the extended machine (tracking scores concrete) -/
+
+section Tracking
+open PEval.ManagerTracking
+
+structure TDetEntry where
+  frame : Nat
+  e : Nat
+  c : Nat
+  det : Det
+  tb : List (List TRes)
+
+def decTRes (j : Json) : Except String TRes := do
+  let e ← getNat j "e"
+  let el ← getNat j "el"
+  let gj ← j.getObjVal? "g"
+  let gt : Option Clear.Gt ← match gj with
+    | .null => pure none
+    | _ => do
+      let gid ← gj.getNat?
+      pure (some ⟨gid, ← getNat j "gl", ← getBool j "gfp"⟩)
+  pure ⟨e, el, gt, ← getRatList j "v", ← getBool j "ok", ← getRat j "w"⟩
+
+def decTB (j : Json) : Except String (List (List TRes)) := do
+  let bs ← getArr j "tb"
+  bs.toList.mapM (fun b => do
+    let a ← b.getArr?
+    a.toList.mapM decTRes)
+
+def decTCfg (j : Json) : Except String TCfg := do
+  pure ⟨← getNat j "mode", ← getBool j "maximize", ← getRatList j "thr"⟩
+
+def mkTSem (labels : List Nat) (cfgs : List TCfg) (dets : List TDetEntry) : TSem Nat Nat where
+  labels := labels
+  cfgs := cfgs
+  evalDet := fun g e c =>
+    match dets.find? (fun d => d.frame == g.name && d.e == e && d.c == c) with
+    | some d => d.det
+    | none => { results := [], numGt := [] }
+  evalTB := fun g e c =>
+    match dets.find? (fun d => d.frame == g.name && d.e == e && d.c == c) with
+    | some d => d.tb
+    | none => []
+
+def jClear (o : Clear.Out) : Json :=
+  Json.mkObj [("predict_num", jNat o.predictNum), ("g", jNat o.g), ("tp", jRat o.acc.tp),
+    ("fp", jNat o.acc.fp), ("sw", jNat o.acc.sw), ("score", jRat o.acc.score),
+    ("mota", jOptRat o.mota), ("motp", jOptRat o.motp)]
+
+def jTScore (r : TScore) : Json :=
+  Json.mkObj [("clears", jList jClear r.1), ("mota", jOptRat r.2.1), ("motp", jOptRat r.2.2.1),
+    ("sw", jNat r.2.2.2)]
+
+def jTOut (nl : Nat) : TOut → Json
+  | .added r =>
+    Json.mkObj [("o", "add"), ("frame_name", jNat r.frameName),
+      ("numgt", jList jNat ((List.range nl).map r.det.gt)),
+      ("tids", jList (jList (fun (x : TRes) => jNat x.est)) ((List.range nl).map r.bucket)),
+      ("track", jList jTScore r.track)]
+  | .scene _ acc t =>
+    Json.mkObj [("o", "scene"), ("numgt", jList jNat ((List.range nl).map acc.gt)),
+      ("n_results", jList jNat ((List.range nl).map (fun l => ((acc.hist l).flatten).length))),
+      ("n_frames", jList jNat ((List.range nl).map (fun l => (acc.hist l).length))),
+      ("used", jList jNat acc.usedFrame), ("track", jList jTScore t)]
+  | .frame f =>
+    match f with
+    | .ok (some fr) => Json.mkObj [("o", "lookup"), ("frame", jNat fr.name)]
+    | .ok none => Json.mkObj [("o", "lookup"), ("frame", Json.null)]
+    | .error e => Json.mkObj [("o", "lookup"), ("err", Json.str e)]
+
+end Tracking
+
 def handle : Json → Except String Json := fun j => do
   let op ← getStr j "op"
   match op with
@@ -128,6 +208,18 @@ def handle : Json → Except String Json := fun j => do
     let sem := mkSem nl dets tracks
     let (s, outs) := run sem (fresh ds) ops
     pure (Json.mkObj [("outs", jList (jOut nl ncols) outs), ("dataset", jList jFrame s.dataset),
+      ("n_frame_results", jNat s.frameResults.length)])
+  | "trun" =>
+    let labels ← getNatList j "labels"
+    let cfgs ← (← getArr j "tcfgs").toList.mapM decTCfg
+    let ds ← (← getArr j "dataset").toList.mapM decFrame
+    let dets ← (← getArr j "dets").toList.mapM (fun d => do
+      pure ({ frame := ← getNat d "frame", e := ← getNat d "e", c := ← getNat d "c", det := ← decDet d,
+              tb := ← decTB d } : TDetEntry))
+    let ops ← (← getArr j "ops").toList.mapM (decOp ds)
+    let sem := mkTSem labels cfgs dets
+    let (s, outs) := PEval.ManagerTracking.trun sem (PEval.ManagerTracking.tfresh ds) ops
+    pure (Json.mkObj [("outs", jList (jTOut labels.length) outs), ("dataset", jList jFrame s.dataset),
       ("n_frame_results", jNat s.frameResults.length)])
   | o => throw s!"unknown op {o}"
 
